@@ -931,7 +931,7 @@ func proofContracts(tx *txn, index types.ChainIndex) (revisions []contracts.Sign
 }
 
 func rebroadcastV2Contracts(tx *txn) (rebroadcast []rhp4.TransactionSet, err error) {
-	rows, err := tx.Query(`SELECT formation_txn_set, formation_txn_set_basis FROM contracts_v2 WHERE confirmation_index IS NULL AND contract_status <> ?`, contracts.ContractStatusRejected)
+	rows, err := tx.Query(`SELECT formation_txn_set, formation_txn_set_basis FROM contracts_v2 WHERE confirmation_index IS NULL AND contract_status <> ?`, contracts.V2ContractStatusRejected)
 	if err != nil {
 		return nil, err
 	}
